@@ -136,4 +136,15 @@ def fresh : RW := ⟨.idle, [], [], [], [], [], 0⟩
 
 end RW
 
+/-! ### `Pool.reportSSHConnected` (finding F15b)
+
+Called through `TagVerifier.VerifyHostKey` when an SSH connection to an instance has been verified:
+`wkr := wp.workers[inst.ID()]; if wkr.state != StateBooting || … { return }`. The map lookup yields nil
+when `Pool.sync` has dropped the worker while the handshake was in progress (instance destroyed and
+gone from the cloud's list), and `wkr.state` then panics with a nil dereference. -/
+
+/-- `none` = the process panics -/
+def reportSSHConnected (workers : List Nat) (id : Nat) : Option Unit :=
+  if workers.contains id then some () else none
+
 end ArvVerif.C15
